@@ -88,7 +88,7 @@ def exLx2 : Lx :=
 example : consumeName exLx2 = .ok (⟨.name, .name [120, 45, 121]⟩, { exLx2 with pos := 5 }) := by decide
 
 
-/-- `key_lookup_is_name_new`: the text the longest-prefix loop looks up (lexer.rs:666, repaired
+/-- `key_lookup_is_name_new`: the text the longest-prefix loop looks up (lexer.rs:672, repaired
 by b9aabe3, finding F19) IS the `Name::new` text of the candidate parts — the normalisation under
 which `Name`s are stored in a scope — for every part list (adjacent, leading or trailing
 additional symbols included). -/
@@ -102,7 +102,7 @@ def exF19 : Lx :=
     between := false, typeName := false, tillIn := false, keys := [[97, 43, 45, 98]] }
 example : consumeName exF19 = .ok (⟨.name, .name [97, 43, 45, 98]⟩, { exF19 with pos := 4 }) := by decide
 
-/-- `flatten_name_parts` (lexer.rs:1048; since b9aabe3 used by its unit tests only) agrees with
+/-- `flatten_name_parts` (lexer.rs:1054; since b9aabe3 used by its unit tests only) agrees with
 `Name::new` on regular part lists: a word, then words each optionally preceded by ONE additional
 symbol; words non-empty and free of white space and additional symbols. -/
 theorem flatten_agrees_on_regular (parts : List (List Nat)) (h : regularParts parts = true) :
